@@ -124,7 +124,8 @@ Theorem Resolve_root re_ok fuel root baseURI loader e calls :
   node_at e (0, []) = Some root /\ e_draft7 e = detectDraft7 root /\ e_version e = s_schema root.
 Proof.
   unfold Resolve. intros H.
-  destruct (match baseURI with [] => POk empty_uri | _ => parse_uri baseURI end) as [b| |]; try discriminate.
+  destruct (match baseURI with [] => POk empty_uri | _ => parse_uri baseURI end) as [b0| |]; try discriminate.
+  set (b := norm_base baseURI b0) in *; clearbody b.
   destruct (resolve_doc re_ok loader (detectDraft7 root) fuel (mkR [] [] [] []) root b) as [[st d]| | |] eqn:Er; cbn [bind] in H; try discriminate.
   injection H as <- _.
   destruct (resolve_doc_docs _ _ _ _ _ _ _ _ _ Er) as (_ & Hd & di & Hn & Hroot). cbn [r_docs length] in Hd. subst d.
